@@ -95,6 +95,10 @@ def run(ctx):
                 dist["interrupt_handler"] = dist.get("interrupt_handler", 0) + 1
             if eh == "raise":
                 rc["allow_raise"] = True
+            if rng.random() < 0.06 and eh == "continue":
+                # the node function raises a StopIteration (known finding F-l under the asynchronous runner)
+                rc["stop_iteration"] = True
+                dist["stop_iteration"] = dist.get("stop_iteration", 0) + 1
             if rng.random() < 0.3:
                 outs = [o for nn in gf["nodes"] for o in gen.iface(nn)[1]]
                 if outs:
@@ -155,7 +159,8 @@ def run(ctx):
 
     from harness.props.c16 import missing_error
     obs_all, res = engine.run_cases(ctx, "C11", cases, extra=extra, want_model=lambda g, rc, obs: not missing_error(obs) and not any(
-                                          n["kind"] == "interrupt" and n.get("fn", [None])[0] == "raise" for n in g["nodes"]))
+                                          n["kind"] == "interrupt" and n.get("fn", [None])[0] == "raise" for n in g["nodes"])
+                                          and not (rc.get("stop_iteration") and rc.get("runner") == "async"))
     ctx.coverage.update(
         evaluations=len(cases), coq_checks=res["n"], distinct_nontrivial=len(nontrivial),
         rule="dag / gated / loop / emit programs and DAGs nested to depth 1-3; each of up to three nodes in turn (25% together with a second "
